@@ -666,6 +666,35 @@ def r07_11(ctx, rep):
     no_stale_loop_variables(ctx, rep, "R07.11", TREE, "the flattening passes")
 
 
+@SPEC.rule(
+    "R07.12",
+    "an instantiated nested class looks names up where it lives: where build_instance_tree stores the instance of a nested class in "
+    "<X>.classes[...], the parent it passes to the recursive call is that same <X> (the class with its extends clauses applied) — with the "
+    "un-extended original as parent, a nested class no longer sees what its enclosing class inherits, and a name resolves further out or not at all",
+)
+def r07_12(ctx, rep):
+    R = "R07.12"
+    fn = ctx.func(TREE, "build_instance_tree", R)
+    site = TREE + ":build_instance_tree"
+    params = [a.arg for a in fn.args.args]
+    if "parent" not in params:
+        raise MechanismMissing(R, "build_instance_tree has no `parent` parameter")
+    pi = params.index("parent")
+    n = 0
+    for st in walk_local(fn):
+        if isinstance(st, ast.Assign) and isinstance(st.targets[0], ast.Subscript) and norm(st.targets[0].value).endswith(".classes") \
+                and isinstance(st.value, ast.Call) and is_name(st.value.func, "build_instance_tree"):
+            n += 1
+            holder = norm(st.targets[0].value)[: -len(".classes")]
+            c = st.value
+            given = c.args[pi] if len(c.args) > pi else next((k.value for k in c.keywords if k.arg == "parent"), None)
+            rep.ob(R, site, "nested instance stored in %s.classes gets %s as parent" % (holder, holder), given is not None and norm(given) == holder,
+                   "the instance is stored in `%s.classes` but is given `%s` as its parent: lookups from inside the nested class start in another "
+                   "class than the one it is a member of" % (holder, norm(given) if given is not None else "nothing"))
+    if n < 1:
+        raise MechanismMissing(R, "no `<X>.classes[...] = build_instance_tree(...)` found")
+
+
 # -- seeded variants ---------------------------------------------------------
 from ._mut import delete_stmt_where, replace_in_func  # noqa: E402
 
